@@ -823,6 +823,10 @@ where
             // TODO(soon): check_sane
             let mut lock = ps_ref.borrow().new_lock(fid);
             let mut backoff = Duration::from_millis(100);
+            // wait_all() may have left us without a token (the top level gives
+            // its own back for the self-check), and starting a job needs one.
+            // We hold no lock yet, so it is safe to wait for a token here.
+            server.ensure_token_or_cheat(t.as_str(), &mut cheat).await?;
             lock.try_lock()?;
             while !lock.is_owned() {
                 // Don't spin with 100% CPU while we fight for the lock.
